@@ -43,6 +43,7 @@ import (
 	"errors"
 	"fmt"
 	"os"
+	"reflect"
 	"strconv"
 )
 
@@ -57,7 +58,56 @@ type verifRes struct {
 	Err   string      ` + "`json:\"err\"`" + `
 }
 
+// verifKind renders a reflect.Type by Kind (what GenTerm.RT.render writes): interface{} is "any", the marker struct
+// timeType is "time"; every basic type by its name.
+func verifKind(t reflect.Type) string {
+	switch t.Kind() {
+	case reflect.Pointer:
+		return "*" + verifKind(t.Elem())
+	case reflect.Slice:
+		return "[]" + verifKind(t.Elem())
+	case reflect.Map:
+		return "map[" + verifKind(t.Key()) + "]" + verifKind(t.Elem())
+	case reflect.Interface:
+		return "any"
+	case reflect.Struct:
+		if t == reflect.TypeFor[timeType]() {
+			return "time"
+		}
+	}
+	return t.String()
+}
+
+// GOZODGEN_VERIF_TYPES=<dir>: run the real analyzer on the package and print, per struct, the reflect.Type
+// typesToReflectType built for every field (the result of the conversion whose termination C13 is about).
+func verifTypes(dir string) {
+	a, err := NewStructAnalyzer()
+	if err != nil {
+		fmt.Fprintln(os.Stderr, err)
+		os.Exit(3)
+	}
+	infos, err := a.AnalyzePackage(dir)
+	if err != nil {
+		fmt.Fprintln(os.Stderr, err)
+		os.Exit(3)
+	}
+	res := map[string][]string{}
+	for _, in := range infos {
+		var ts []string
+		for _, f := range in.Fields {
+			ts = append(ts, verifKind(f.Type))
+		}
+		res[in.Name] = ts
+	}
+	b, _ := json.Marshal(res)
+	fmt.Println("VERIFTYPES " + string(b))
+	os.Exit(0)
+}
+
 func init() {
+	if d := os.Getenv("GOZODGEN_VERIF_TYPES"); d != "" {
+		verifTypes(d)
+	}
 	if os.Getenv("GOZODGEN_VERIF_RULES") == "" {
 		return
 	}
@@ -307,18 +357,18 @@ func emitSplit(o *hx.Out, gen string, rng *hx.Rng, thorough bool) {
 // wide programs
 
 type wcand struct {
-	k      int
-	gotype string
-	tag    string
-	probes []string // values as text: a string value, or a number
-	names  string
-	solo   string
-	errmsg string
-	expr   string
-	hasX   bool
-	soloOnly bool   // a field type of round 4 (time.Time, nested / self-referential structs, slices, maps …): type-checked alone only
-	place  []string // Struct.Field of every occurrence in the wide package
-	g, r   map[string][]string
+	k        int
+	gotype   string
+	tag      string
+	probes   []string // values as text: a string value, or a number
+	names    string
+	solo     string
+	errmsg   string
+	expr     string
+	hasX     bool
+	soloOnly bool     // a field type of round 4 (time.Time, nested / self-referential structs, slices, maps …): type-checked alone only
+	place    []string // Struct.Field of every occurrence in the wide package
+	g, r     map[string][]string
 }
 
 var strProbes = []string{"", "a", "b", "c", "ab", "abc", "abcd", "abcde", "abcdefghi", "A", "a b", "a,b", "a]", "x", "z", "7", "12345", "red", "x,y",
@@ -532,28 +582,6 @@ func wideCandidates(rng *hx.Rng, thorough bool) []*wcand {
 	// round 4: every kind of field type the writer distinguishes (basicTypeConstructors, time.Time, named structs, pointers,
 	// slices, maps, nestings of those, references to the enclosing struct = SELF), each with tags of its kind; these are
 	// emitted and type-checked one struct at a time (texpr: emitted text and compile status against the Lean typing judgement)
-	kindTags := map[string][]string{
-		"num":   {"", "required", "min=1", "max=100", "gt=0,lte=9", "default=3", "min=1,max=5,required", "gte=2.5", "max=300", "min=-1", "max=4294967296", "max=9223372036854775808", "lt=1.0",
-			"positive", "length=2", "gt=-0.5", "lte=+7", "min=007", "max=2.50", "nonnegative,negative"},
-		"bool":  {"", "required", "default=true", "prefault=false", "min=1"},
-		// JSON-valued default= / prefault= parameters (generateSliceValue / generateMapValue)
-		"json": {`default=["a","b"]`, `prefault=[]`, `default=[1,2,3]`, `default=["a",1,true]`, `prefault=[true,false]`, `default=[-5]`, `required,default=["x"],min=1`, `default={"k":"v"}`, `default=[1.5]`, `default=abc`},
-		"other": {"", "required", "min=1", "max=3", "required,min=1", "nilable", "length=2", "nonempty", "max=1.5"},
-		"str":   {"", "nilable,min=1", "prefault=x", "min=1.5", "gt=1", "uuid,email", "enum=a b,required", "enum=a", "regex=^a$,uuid", "default=a b c", "email,email",
-			"url", "url,min=3", "required,url", "uuid,url", "enum=a b,min=2", "enum=a b,url", "length=3", "nonempty", "length=x", "positive"},
-	}
-	kinds := []struct{ ty, cls string }{
-		{"int8", "num"}, {"int16", "num"}, {"int32", "num"}, {"uint", "num"}, {"uint8", "num"}, {"uint16", "num"}, {"uint32", "num"}, {"uint64", "num"},
-		{"float32", "num"}, {"*float32", "num"}, {"*int8", "num"}, {"*uint64", "num"}, {"int", "num"}, {"float64", "num"}, {"*int64", "num"},
-		{"bool", "bool"}, {"*bool", "bool"}, {"string", "str"}, {"*string", "str"},
-		{"complex128", "other"}, {"time.Time", "other"}, {"*time.Time", "other"}, {"[]time.Time", "other"}, {"Inner", "other"}, {"*Inner", "other"}, {"[]Inner", "other"}, {"[]*Inner", "other"},
-		{"map[string]Inner", "other"}, {"map[string]*Inner", "other"}, {"[]string", "other"}, {"[]*string", "other"}, {"[][]int", "other"}, {"*[]int", "other"}, {"*[]*Inner", "other"},
-		{"map[string]int", "other"}, {"map[string][]int", "other"}, {"map[string]map[string]bool", "other"}, {"*map[string]string", "other"}, {"map[int]string", "other"}, {"**int", "other"},
-		{"map[string]*time.Time", "other"}, {"map[string]*string", "other"}, {"map[string]*[]int", "other"}, {"map[string]time.Time", "other"}, {"any", "other"}, {"[]any", "other"},
-		{"map[string]any", "other"}, {"*map[string]*Inner", "other"}, {"[]*time.Time", "other"}, {"map[string][]*Inner", "other"}, {"[]map[string]int", "other"},
-		{"[]string", "json"}, {"[]int", "json"}, {"[]bool", "json"}, {"[]int64", "json"}, {"*[]string", "json"}, {"[]*string", "json"}, {"map[string]string", "json"},
-		{"*SELF", "other"}, {"[]SELF", "other"}, {"[]*SELF", "other"}, {"map[string]SELF", "other"}, {"map[string]*SELF", "other"}, {"[][]*SELF", "other"}, {"*[]SELF", "other"},
-	}
 	for _, k := range kinds {
 		tags := kindTags[k.cls]
 		if !thorough && k.cls == "num" { // quick: a rotating third of the numeric tags per type
@@ -574,6 +602,47 @@ func wideCandidates(rng *hx.Rng, thorough bool) []*wcand {
 		}
 	}
 	return cs
+}
+
+// THE KIND × TAG TABLE (round 4): every kind of field type the writer distinguishes, with the tags of its class.
+// Written to kindrows.json on every run; vlib/c13.py renders it as lean/Gozod/Gen/KindRows.lean, the table the theorems
+// c13_rows_* of Proofs/C13Typed.lean are stated over (round 4c: regenerated, no hand copy in Lean).
+var kindTags = map[string][]string{
+	"num": {"", "required", "min=1", "max=100", "gt=0,lte=9", "default=3", "min=1,max=5,required", "gte=2.5", "max=300", "min=-1", "max=4294967296", "max=9223372036854775808", "lt=1.0",
+		"positive", "length=2", "gt=-0.5", "lte=+7", "min=007", "max=2.50", "nonnegative,negative"},
+	"bool": {"", "required", "default=true", "prefault=false", "min=1"},
+	// JSON-valued default= / prefault= parameters (generateSliceValue / generateMapValue)
+	"json":  {`default=["a","b"]`, `prefault=[]`, `default=[1,2,3]`, `default=["a",1,true]`, `prefault=[true,false]`, `default=[-5]`, `required,default=["x"],min=1`, `default={"k":"v"}`, `default=[1.5]`, `default=abc`},
+	"other": {"", "required", "min=1", "max=3", "required,min=1", "nilable", "length=2", "nonempty", "max=1.5"},
+	"str": {"", "nilable,min=1", "prefault=x", "min=1.5", "gt=1", "uuid,email", "enum=a b,required", "enum=a", "regex=^a$,uuid", "default=a b c", "email,email",
+		"url", "url,min=3", "required,url", "uuid,url", "enum=a b,min=2", "enum=a b,url", "length=3", "nonempty", "length=x", "positive"},
+}
+var kinds = []struct{ ty, cls string }{
+	{"int8", "num"}, {"int16", "num"}, {"int32", "num"}, {"uint", "num"}, {"uint8", "num"}, {"uint16", "num"}, {"uint32", "num"}, {"uint64", "num"},
+	{"float32", "num"}, {"*float32", "num"}, {"*int8", "num"}, {"*uint64", "num"}, {"int", "num"}, {"float64", "num"}, {"*int64", "num"},
+	{"bool", "bool"}, {"*bool", "bool"}, {"string", "str"}, {"*string", "str"},
+	{"complex128", "other"}, {"time.Time", "other"}, {"*time.Time", "other"}, {"[]time.Time", "other"}, {"Inner", "other"}, {"*Inner", "other"}, {"[]Inner", "other"}, {"[]*Inner", "other"},
+	{"map[string]Inner", "other"}, {"map[string]*Inner", "other"}, {"[]string", "other"}, {"[]*string", "other"}, {"[][]int", "other"}, {"*[]int", "other"}, {"*[]*Inner", "other"},
+	{"map[string]int", "other"}, {"map[string][]int", "other"}, {"map[string]map[string]bool", "other"}, {"*map[string]string", "other"}, {"map[int]string", "other"}, {"**int", "other"},
+	{"map[string]*time.Time", "other"}, {"map[string]*string", "other"}, {"map[string]*[]int", "other"}, {"map[string]time.Time", "other"}, {"any", "other"}, {"[]any", "other"},
+	{"map[string]any", "other"}, {"*map[string]*Inner", "other"}, {"[]*time.Time", "other"}, {"map[string][]*Inner", "other"}, {"[]map[string]int", "other"},
+	{"[]string", "json"}, {"[]int", "json"}, {"[]bool", "json"}, {"[]int64", "json"}, {"*[]string", "json"}, {"[]*string", "json"}, {"map[string]string", "json"},
+	{"*SELF", "other"}, {"[]SELF", "other"}, {"[]*SELF", "other"}, {"map[string]SELF", "other"}, {"map[string]*SELF", "other"}, {"[][]*SELF", "other"}, {"*[]SELF", "other"},
+}
+
+func writeKindRows(path string) {
+	type row struct {
+		Ty  string `json:"ty"`
+		Tag string `json:"tag"`
+	}
+	var rows []row
+	for _, k := range kinds {
+		for _, t := range kindTags[k.cls] {
+			rows = append(rows, row{k.ty, t})
+		}
+	}
+	b, _ := json.Marshal(rows)
+	os.WriteFile(path, b, 0o644)
 }
 
 func ruleNames(tag string) string {
